@@ -188,3 +188,45 @@ Proof. repeat split; vm_compute; reflexivity. Qed.
 Lemma sub1_loop_none (x : f64) (fuel : nat) : le64 one64 x = false -> sub1_loop fuel x = Ok (O, x).
 Proof. intro L. rewrite sub1_loop_unfold, L. reflexivity. Qed.
 
+(** the same with floor: for a finite 0 <= x <= 2^53 the loop runs floor(x) times and leaves x - floor(x) *)
+Lemma sub1_loop_floor (x : f64) (fuel : nat) :
+  is_finite x = true -> 0 <= B2R x <= IZR (2 ^ 53) -> (Z.to_nat (Zfloor (B2R x)) <= fuel)%nat ->
+  exists r, sub1_loop fuel x = Ok (Z.to_nat (Zfloor (B2R x)), r) /\ is_finite r = true /\
+            B2R r = B2R x - IZR (Zfloor (B2R x)) /\ 0 <= B2R r < 1.
+Proof.
+  intros Fx [L U] Hf.
+  assert (Z0 : (0 <= Zfloor (B2R x))%Z) by (apply Zfloor_lub; exact L).
+  assert (EI : INR (Z.to_nat (Zfloor (B2R x))) = IZR (Zfloor (B2R x))) by (rewrite INR_IZR_INZ, Z2Nat.id; [reflexivity|exact Z0]).
+  pose proof (Zfloor_lb (B2R x)) as Lb. pose proof (Zfloor_ub (B2R x)) as Ub.
+  destruct (sub1_loop_count (Z.to_nat (Zfloor (B2R x))) x fuel Fx) as [r (E & Fr & Rr)]; [rewrite EI; lra|exact U|exact Hf|].
+  exists r. rewrite EI in Rr. repeat split; try assumption; rewrite Rr; lra.
+Qed.
+
+(** the divergence class: +inf, or a finite value from 2^55 on *)
+Definition carry_diverges (x : f64) : Prop :=
+  x = B754_infinity false \/ (is_finite x = true /\ IZR (2 ^ 55) <= B2R x).
+Lemma sub1_loop_diverges (x : f64) : carry_diverges x -> forall fuel, sub1_loop fuel x = Hang.
+Proof.
+  intros [E|[F H]]; [subst; apply sub1_loop_diverges_inf|apply sub1_loop_diverges_finite; assumption].
+Qed.
+Lemma carry_diverges_stuck (x : f64) : carry_diverges x -> le64 one64 x = true /\ sub64 x one64 = x.
+Proof.
+  intros [E|[F H]]; [subst; split; reflexivity|].
+  assert (P55 : IZR (2 ^ 55) = 36028797018963968) by (cbn; lra).
+  split; [apply (ge1_spec x F); lra|apply sub1_stuck; assumption].
+Qed.
+(** F8 / F7 witnesses: playback_rate 1e300 at 48 kHz gives an increment of 1e300; SecondsPerTick(0.0) gives +inf *)
+Lemma ge_2p55_of_le64 (x : f64) : is_finite x = true -> le64 (Z64 (2 ^ 55)) x = true -> IZR (2 ^ 55) <= B2R x.
+Proof.
+  intros Fx H. unfold le64, fle in H. rewrite Bleb_correct in H by (try exact Fx; reflexivity).
+  assert (E : B2R64 (Z64 (2 ^ 55)) = IZR (2 ^ 55)).
+  { unfold Z64, of_Z. cbn. unfold F2R. cbn. lra. }
+  rewrite E in H. destruct (Rle_bool_spec (IZR (2 ^ 55)) (B2R x)); [assumption|discriminate].
+Qed.
+Example carry_diverges_1e300 : carry_diverges (f64_of_bits 9094988921128908188).
+Proof. right. split; [reflexivity|]. apply ge_2p55_of_le64; vm_compute; reflexivity. Qed.
+(* 3.5 -> three iterations, 0.5 left (observed through the bit pattern: vm_compute must not normalise boundedness proofs) *)
+Example carry_terminates_example :
+  match sub1_loop 5 (f64_of_bits 4615063718147915776) with Ok (n, r) => (n, bits_of_f64 r) | _ => (O, (-1)%Z) end
+  = (3%nat, 4602678819172646912%Z).
+Proof. vm_compute. reflexivity. Qed.
